@@ -1707,7 +1707,9 @@ func (sc *c09Scn) run(cs *vg.Cases, id int, kind string, header string) {
 		sc.sched.client = c
 		sc.sched.mu.Unlock()
 	}
-	opts := []Option{MaxClockDrift(sc.drift), MaxBlockLag(0), PruningSize(sc.prune)}
+	// MaxBlockLag only lengthens the pause before a lagging witness is asked again; it is set
+	// ABOVE the clock drift so that the two durations cannot stand in for each other unnoticed
+	opts := []Option{MaxClockDrift(sc.drift), MaxBlockLag(5 * sc.drift), PruningSize(sc.prune)}
 	if sc.sequential {
 		opts = append(opts, SequentialVerification())
 	} else {
